@@ -178,7 +178,7 @@ func genC16(x *Ctx) *c16Scen {
 				r.Members = tp.Range(2, 3)
 			}
 			if tp.Chance(450) {
-				r.Fault = []string{"btrunc", "berr", "bhdr", "bflip", "bmislabel", "btrail"}[tp.G(6)]
+				r.Fault = []string{"btrunc", "berr", "bhdr", "bflip", "bmislabel", "btrail", "bdouble"}[tp.G(7)]
 				r.FaultAt = tp.G(1000)
 			}
 			reqs = append(reqs, r)
@@ -409,6 +409,16 @@ func runC16(x *Ctx) {
 						data[0] ^= 0xff
 					}
 					count("fault-bhdr")
+				case "bdouble":
+					// coded twice and declared so ("gzip, gzip", legal per RFC 9110 8.4): the statement promises
+					// nothing for a list of codings - an error or the right value, never a panic, never an effect
+					// on a later request
+					if r.Coding == "gzip" {
+						data = Gzip(data)
+						b.Data, b.Chunks = data, scaleChunks(r.BChunks, len(data), 300)
+						hdr["Content-Encoding"] = "gzip, gzip"
+						count("fault-bdouble")
+					}
 				case "bmislabel":
 					// declare a coding the body does not have
 					if r.Coding == "" {
@@ -472,6 +482,11 @@ func runC16(x *Ctx) {
 				x.Violate("round-trip-differs", "%s: read back %s, written %s", what, clip(jsonStr(got), 400), clip(jsonStr(want), 400))
 			}
 			continue
+		}
+		if r.Fault == "bdouble" && r.readErr == nil {
+			if want, got := r.value.normalise(), r.got.normalise(); !reflect.DeepEqual(want, got) {
+				x.Violate("round-trip-differs", "%s: a body coded twice was read without error as %s, written %s", what, clip(jsonStr(got), 300), clip(jsonStr(want), 300))
+			}
 		}
 		if mustFail(r) && r.readErr == nil {
 			// a damaged first byte of an uncoded XML document can still be a document (leading text is skipped)
